@@ -23,13 +23,20 @@ pub fn generate(prop: &str, tier: &str, r: &mut Rng, out: &mut Vec<String>) -> G
             for c in 0..=0xffffu32 {
                 out.push(format!("status {:04x}", c));
             }
+            // the decoding is a function of the status word alone: the same answer under every protocol version and
+            // request-id, and for a header that came out of the parser (every code up to 0x05ff, and the ends of the range)
+            for ver in [0x0100u32, 0x0200, 0x0201, 0x0202, 0x0000, 0x0a0a, 0xffff] {
+                for c in (0..=0x05ffu32).chain([0x0600, 0x1000, 0x7fff, 0x8000, 0xfffe, 0xffff]) {
+                    out.push(format!("status {:04x} {:04x} {:08x}", c, ver, [0u32, 1, 0xffff_ffff][(c % 3) as usize]));
+                }
+            }
             for (name, hi) in crate::registry::ENUMS {
                 for c in 0..=*hi {
                     out.push(format!("enum {} {:x}", name, c));
                 }
             }
             GenInfo {
-                rule: "every 16-bit status code through status_code()/is_success(); every tag byte through both tag enums; every operation id 0..=0xffff; every enum value 0..=300 through from_u64; all are distinct and count as non-trivial".into(),
+                rule: "every 16-bit status code through status_code()/is_success() under version 1.1, and codes 0x0000-0x05ff plus the ends of the range under versions 1.0, 2.0, 2.1, 2.2, 0.0, 10.10, 255.255 with request-ids 0, 1, 2^32-1, each both on a constructed header and on a header that came out of the parser; every tag byte through both tag enums; every operation id 0..=0xffff; every enum value 0..=300 through from_u64; all are distinct and count as non-trivial".into(),
                 exhaustive: true,
             }
         }
@@ -171,7 +178,26 @@ pub fn generate(prop: &str, tier: &str, r: &mut Rng, out: &mut Vec<String>) -> G
             for i in 0..n {
                 let mut rr = r.fork();
                 let u = crate::gen2::gen_uri(&mut rr);
-                if i % 50 == 49 {
+                if i % 25 == 12 {
+                    // runs of requests whose targets differ in one component only (port given / another / none; path;
+                    // host), built one after the other in the same thread: each printer-uri is a function of its own target
+                    let kind = *rr.pick(&crate::gen2::KINDS[..11]);
+                    let p1 = *rr.pick(&[631u16, 8631, 443, 80, 1, 65535]);
+                    let p2 = if p1 == 631 { 8631 } else { 631 };
+                    let variants = [
+                        u.with(Some(Some(p1)), None, None), u.with(Some(Some(p2)), None, None), u.with(Some(None), None, None), u.with(Some(Some(p1)), None, None),
+                        u.with(None, Some("/other/path"), None), u.with(None, None, Some("other.example")), u.with(Some(None), None, None),
+                    ];
+                    for v in &variants {
+                        let args = crate::gen2::gen_build_args(&mut rr, kind);
+                        let mut toks: Vec<String> = args.splitn(3, ' ').map(|t| t.to_string()).collect();
+                        if toks.len() == 3 && toks[1] != "~" {
+                            toks[1] = hex(v.text.as_bytes());
+                        }
+                        out.push(format!("build {}", toks.join(" ")));
+                        out.push(crate::gen2::canon_line(v));
+                    }
+                } else if i % 50 == 49 {
                     // targets in authority form (`host[:port]`, no scheme): at the edge of the property's quantifier; the
                     // http crate accepts them and the model must say what the code does with them
                     let kind = *rr.pick(&crate::gen2::KINDS[..11]);
@@ -533,7 +559,7 @@ pub fn generate(prop: &str, tier: &str, r: &mut Rng, out: &mut Vec<String>) -> G
                 let mut rr = r.fork();
                 let m = gen_msg(&mut rr, &lim);
                 let (body, _) = resp_bytes(&mut rr);
-                for c in 0..(if thorough { 2 } else { 1 }) {
+                for c in 0..2 {
                     out.push(format!("send {} {} - {} {} (srv {} {} {} {})", clients[(st as usize + c) % 2], show_msg(&m), gen_cfg(&mut rr, None), gen_target(&mut rr), st, framings[st as usize % 3], hex(&body), frags(&mut rr)));
                 }
             }
@@ -584,12 +610,16 @@ pub fn generate(prop: &str, tier: &str, r: &mut Rng, out: &mut Vec<String>) -> G
                         for root in ["none", "pem", "der", "unrelated"] {
                             for cert in ["valid", "wrongname", "expired", "selfsigned", "unknownca"] {
                                 out.push(format!("tlscase {} {} {} {} {} {}", be, client, ignore, root, cert, host));
+                                // the same target written https:// (quick: without setter calls and with one opt-out)
+                                if thorough || matches!(ignore, "unset" | "t") {
+                                    out.push(format!("tlscase {} {} {} {} {} {} https", be, client, ignore, root, cert, host));
+                                }
                             }
                         }
                     }
                 }
             }
-            GenInfo { rule: "the matrix {blocking, async} x {host given as DNS name, as IP literal} x {sequence of ignore_tls_errors calls: none, f, t, tf, ft, ftf, ttf, tft (IP literal in the quick tier: none, f, t, tf)} x {no extra root, correct root as PEM, as DER, unrelated root} x server certificate {valid for host (SAN DNS:localhost, IP:127.0.0.1), other host name, expired, self-signed, signed by unknown CA} for the TLS backend this harness build links (both backends are run and merged by run.py): 480 cells per backend (640 thorough), each a real handshake against an in-process rustls server with certificates generated by the openssl CLI; every cell is distinct and non-trivial; the sequences of setter calls are a sample (the theorem covers every sequence)".into(), exhaustive: false }
+            GenInfo { rule: "the matrix {blocking, async} x {host given as DNS name, as IP literal} x {sequence of ignore_tls_errors calls: none, f, t, tf, ft, ftf, ttf, tft (IP literal in the quick tier: none, f, t, tf)} x {no extra root, correct root as PEM, as DER, unrelated root} x server certificate {valid for host (SAN DNS:localhost, IP:127.0.0.1), other host name, expired, self-signed, signed by unknown CA} x target written ipps:// or https:// (quick: https only without setter calls and with a single opt-out), for the TLS backend this harness build links (both backends are run and merged by run.py; the correct root in DER is generated so that it ends with an ASCII white-space octet): 640 cells per backend (1280 thorough), each a real handshake against an in-process rustls server with certificates generated by the openssl CLI; every cell is distinct and non-trivial; the sequences of setter calls are a sample (the theorem covers every sequence)".into(), exhaustive: false }
         }
         "C04" => {
             let n = if thorough { 200_000 } else { 3_000 };
